@@ -118,8 +118,12 @@ def data_menu(n, p, nan):
     for name, col in (("const", np.full(n, 4.0)), ("step", np.where(t >= n // 2, 4.0, 0.0)), ("alt", (t % 2) * 4.0),
                       ("spike", np.where(t == n // 2, 4.0, 0.0))):
         X = np.column_stack([np.roll(col, j) * (1 + 0.5 * j) + 0.25 * j * t for j in range(p)]).astype(float)
-        if nan:
+        if nan == 1:
             X[n // 2, p - 1] = np.nan
+        elif nan == 2:
+            X[0, 0] = np.nan
+        elif nan == 3:
+            X[n - 1, 0] = np.nan
         out.append((name, X))
     return out
 
@@ -220,7 +224,7 @@ def bounds(tier, seed):
             "values": {"scales": [-1, 0, 1, None], "min_segment_length": [0, 1, 2, 3], "max length offsets": [-1, 0, 1, 3],
                        "growth_factor": [1.0, 1.01, 1.5, 2.0, 2.5], "bandwidth": [0, 1, 2, 3, 4, 6], "min_detection_interval": [0, 1, 2, 3],
                        "level": [0.0, 0.01, 0.5, 1.0], "scorers": ["L2Cost", "GaussianVarCost", "GaussianCovCost"]},
-            "lengths": "min-1, min, min+1, min+4", "p": [1, 2, 3], "nan": [False, True],
+            "lengths": "min-1, min, min+1, min+4", "p": [1, 2, 3], "nan": ["none", "row n//2 of the last column", "first row of the first column", "last row of the first column"],
             "all_series": "every (0,4) series of admissible lengths <= 6 (quick) / 8 (thorough) for valid cells, p=1"}
 
 
@@ -234,8 +238,10 @@ def run_shard(shard):
         ps = (1,) if name == "StatThresholdAnomaliser" else (1, 2, 3)
         for n in lengths(info["minlen"]):
             for p in ps:
-                for nan in (False, True):
+                for nan in (0, 1, 2, 3):
                     if nan and st == "invalid" and p > 1:
+                        continue
+                    if nan >= 2 and (st == "invalid" or p == 3):
                         continue
                     for dname, X in data_menu(n, p, nan):
                         if st == "invalid" and dname not in ("step",):
